@@ -31,7 +31,11 @@
      TokenReuse      - tokens are not fresh (smallest token not currently stored)
      UidNoExpiry     - get_uid_by_token lacks the validity filter
      VerifyAnyUser   - verify succeeds when ANY user has that password
-     RemoveKeepsTok  - remove_user leaves the session reachable by token (stale index)          *)
+     RemoveKeepsTok  - remove_user leaves the session reachable by token (stale index)
+     RefreshAdds     - refresh extends from the old expiry instead of from now (expiry + refresh lifetime)
+   "ExpiryOverflow" is a second defect of the shipped code: `now + lifetime` was computed with a plain `+`,
+   so a lifetime near u64::MAX wrapped around (release build: the session is born expired; with overflow
+   checks: panic) - modelled as: a "huge" lifetime yields an already expired session.                   *)
 EXTENDS Naturals, FiniteSets, TLC
 
 CONSTANTS Uids,          \* 1..n : uids in order of creation (never reused)
@@ -45,7 +49,7 @@ CONSTANTS Uids,          \* 1..n : uids in order of creation (never reused)
           Dev
 
 DevNames == {"RefreshIgnoresExpiry", "ValidInclusive", "SecondSession", "TokenReuse",
-             "UidNoExpiry", "VerifyAnyUser", "RemoveKeepsTok"}
+             "UidNoExpiry", "VerifyAnyUser", "RemoveKeepsTok", "RefreshAdds", "ExpiryOverflow"}
 ASSUME Dev \subseteq DevNames
 ASSUME LifeRefresh >= 1 /\ LifeDefault >= 1 /\ LifeLong >= 1
 
@@ -67,8 +71,12 @@ Put(f, k, v) == [x \in DOMAIN f \cup {k} |-> IF x = k THEN v ELSE f[x]]
 Blank == [op |-> "init", u |-> 0, pw |-> 0, life |-> "", tok |-> 0, ck |-> "",
           res |-> "", ruid |-> 0, rtok |-> 0]
 
-Lifetimes == {"zero", "default", "long"}
+\* "huge": create_session_with_lifetime with a lifetime beyond every horizon of the model (2^31 s .. u64::MAX s);
+\* such a session never expires by itself: its expiry is the symbolic value Inf
+Inf == 1000000
+Lifetimes == {"zero", "default", "long", "huge"}
 Life(l) == CASE l = "zero" -> 0 [] l = "default" -> LifeDefault [] l = "long" -> LifeLong
+ExpiryAt(c, l) == IF l = "huge" THEN (IF "ExpiryOverflow" \in Dev THEN c ELSE Inf) ELSE c + Life(l)
 CookieKinds == {"none", "tok", "wrongname", "among"}
    \* none: no Cookie header; tok: `HumphreyToken=<t>`; wrongname: `Token=<t>`; among: `a=b; HumphreyToken=<t>; c=d`
 
@@ -176,11 +184,12 @@ CreateSession(u, life) ==
           /\ UNCHANGED state
      ELSE /\ FreshPool # {}                                   \* model bound on the number of tokens
           /\ LET t == Min(FreshPool)
-                 e == clock + Life(life) IN
+                 e == ExpiryAt(clock, life)
+                 ge == IF life = "huge" THEN Inf ELSE e IN     \* what the property grants
                /\ users'  = [users EXCEPT ![u] = [pw |-> users[u].pw, tok |-> t, exp |-> e]]
                /\ issued' = issued \cup {t}
                \* reference: the token is granted to u until e (a lifetime of 0 grants nothing)
-               /\ grant'  = IF e > clock THEN Put(grant, t, [uid |-> u, exp |-> e]) ELSE grant
+               /\ grant'  = IF ge > clock THEN Put(grant, t, [uid |-> u, exp |-> ge]) ELSE grant
                /\ last'   = [obs EXCEPT !.res = "ok", !.rtok = t]
           /\ UNCHANGED <<clock, created, refpw, orphan>>
 
@@ -192,7 +201,8 @@ Refresh(t) ==
   /\ LET h   == FindIn(users, t)
          obs == [Blank EXCEPT !.op = "refresh_session", !.tok = t] IN
      IF h # 0 /\ (ValidAt(users[h], clock) \/ "RefreshIgnoresExpiry" \in Dev)
-     THEN /\ users' = [users EXCEPT ![h].exp = clock + LifeRefresh]
+     THEN /\ users' = [users EXCEPT ![h].exp = IF "RefreshAdds" \in Dev /\ users[h].exp # Inf
+                                               THEN users[h].exp + LifeRefresh ELSE clock + LifeRefresh]
           \* reference: only a live grant can be extended
           /\ grant' = IF RefAuth(t) # 0 THEN [grant EXCEPT ![t].exp = clock + LifeRefresh] ELSE grant
           /\ last'  = [obs EXCEPT !.res = "ok"]
@@ -272,7 +282,7 @@ Spec == Init /\ [][Next]_vars
 (***************************************************************************)
 (* Properties (C17)                                                        *)
 (***************************************************************************)
-SessRec == [pw : Passwords, tok : Tokens \cup {0}, exp : 0..(MaxClock + LifeLong + LifeDefault + LifeRefresh)]
+SessRec == [pw : Passwords, tok : Tokens \cup {0}, exp : 0..(MaxClock + LifeLong + LifeDefault + LifeRefresh) \cup {Inf}]
 TypeOK ==
   /\ DOMAIN users \subseteq created /\ created \subseteq Uids /\ issued \subseteq Tokens
   /\ \A u \in DOMAIN users : users[u] \in SessRec
